@@ -219,6 +219,9 @@ func (i *input) lex() {
 					Text:      content.String(),
 				})
 			}
+			// The rune after the string has not been looked at yet: it may
+			// start another string or a comment.
+			continue
 		default:
 			startLine := i.pos.line
 			var comment bytes.Buffer
@@ -250,6 +253,8 @@ func (i *input) lex() {
 					EndLine:   i.pos.line,
 					Text:      comment.String(),
 				})
+				// Likewise the rune after the comment is yet to be examined.
+				continue
 			} else if i.singleLineComment() { // Single line comment
 				for {
 					if i.eof() {
@@ -267,6 +272,7 @@ func (i *input) lex() {
 					EndLine:   i.pos.line,
 					Text:      comment.String(),
 				})
+				continue
 			}
 		}
 
